@@ -119,10 +119,15 @@ def ref_kl(info, prior):
 
     def f(z):
         z = np.asarray(z, float)
-        if np.any(z <= 0):
-            # x = 0 with g > 0 gives +inf; the library returns inf for any x <= 0
+        if np.any(z < 0) or np.any((z == 0) & (g > 0)):
             return INF
-        return float(np.sum(w * (z - g + g * np.log(g / z))))
+        if np.any(z == 0):
+            # x_i = 0 where g_i = 0: the docstring says +inf unless x > 0, the lower
+            # semicontinuous hull (which conjugate and proximal realise) gives 0: undecided
+            return _band()
+        with np.errstate(divide='ignore', invalid='ignore'):
+            t = np.where(g > 0, g * np.log(np.where(g > 0, g, 1.0) / z), 0.0)
+        return float(np.sum(w * (z - g + t)))
     return f
 
 
@@ -132,9 +137,12 @@ def ref_kl_cc(info, prior):
 
     def f(z):
         z = np.asarray(z, float)
-        if np.any(z >= 1):
+        # g_i > 0: finite iff z_i < 1;  g_i = 0: the term is 0 for z_i <= 1 (sup_x x z - x)
+        if np.any((z >= 1) & (g > 0)) or np.any(z > 1):
             return INF
-        return float(-np.sum(w * g * np.log(1 - z)))
+        with np.errstate(divide='ignore', invalid='ignore'):
+            t = np.where(g > 0, g * np.log(np.where(z < 1, 1 - z, 1.0)), 0.0)
+        return float(-np.sum(w * t))
     return f
 
 
@@ -269,6 +277,7 @@ def _el(space, lst):
 
 
 _PRIOR = [0.5, 2.0, 1.0, 3.0]
+_PRIOR0 = [0.5, 0.0, 1.0, 0.0]      # the prior is only assumed non-negative
 _LOW = [-1.0, -0.5, 0.0, -2.0]
 _UPP = [0.5, 1.0, 2.0, 0.0]
 
@@ -295,7 +304,13 @@ def _prior(info_or_space, o):
     if o.get('prior') is None:
         return None
     n = info_or_space.n if isinstance(info_or_space, Info) else S.flat_size(info_or_space)
-    return np.asarray(_PRIOR)[:n]
+    return np.asarray(_PRIOR0 if o['prior'] == 'elem0' else _PRIOR)[:n]
+
+
+def _prior_el(sp, o):
+    if o.get('prior') is None:
+        return None
+    return _el(sp, _PRIOR0 if o['prior'] == 'elem0' else _PRIOR)
 
 
 def _nonzero(info, o):
@@ -374,14 +389,12 @@ SPECS = [
     FSpec('IndicatorZero', ['rn3', 'ud3'], [{}, {'c': 2.0}],
           lambda sp, o: odl.solvers.IndicatorZero(sp, o.get('c', 0)),
           lambda i, o: (lambda z: float(o.get('c', 0)) if not np.any(z) else INF)),
-    FSpec('KullbackLeibler', TENS, [{'prior': None}, {'prior': 'elem'}],
-          lambda sp, o: odl.solvers.KullbackLeibler(
-              sp, None if o['prior'] is None else _el(sp, _PRIOR)),
+    FSpec('KullbackLeibler', TENS, [{'prior': None}, {'prior': 'elem'}, {'prior': 'elem0'}],
+          lambda sp, o: odl.solvers.KullbackLeibler(sp, _prior_el(sp, o)),
           lambda i, o: ref_kl(i, _prior(i, o)), V=V5, dom=_pos, posdom=True),
-    FSpec('KullbackLeiblerConvexConj', TENS, [{'prior': None}, {'prior': 'elem'}],
-          lambda sp, o: odl.solvers.KullbackLeibler(
-              sp, None if o['prior'] is None else _el(sp, _PRIOR)).convex_conj,
-          lambda i, o: ref_kl_cc(i, _prior(i, o)), V=[-2.0, -0.5, 0.0, 0.5, 3.0], dom=_lt1),
+    FSpec('KullbackLeiblerConvexConj', TENS, [{'prior': None}, {'prior': 'elem'}, {'prior': 'elem0'}],
+          lambda sp, o: odl.solvers.KullbackLeibler(sp, _prior_el(sp, o)).convex_conj,
+          lambda i, o: ref_kl_cc(i, _prior(i, o)), V=[-2.0, -0.5, 0.0, 0.5, 1.0, 3.0], dom=_lt1),
     FSpec('KullbackLeiblerCrossEntropy', TENS, [{'prior': None}, {'prior': 'elem'}],
           lambda sp, o: odl.solvers.KullbackLeiblerCrossEntropy(
               sp, None if o['prior'] is None else _el(sp, _PRIOR)),
